@@ -70,6 +70,9 @@ def generate(seed: int, tier: str = "quick") -> dict:
                     else:
                         amt = Decimal("100000000")
                     faults.append({"kind": "reject:supply", "bar": b})
+                if not rej and have_supply and rp.random() < 0.06:
+                    amt = Decimal(0)  # "supply what is left" when nothing is: accepted, opens (or leaves) an empty position
+                    faults.append({"kind": "zero_amount_supply", "bar": b})
                 add(b, ph, "aave.supply", {"token": t, "amount": str(amt), "collateral": flag})
                 have_supply = True
             elif r < 0.45:
